@@ -878,7 +878,7 @@ def run(ctx):
                        'an undefined WEIGHT is documented by Db::getWeight as weight 1: checked as such (not as a masked sample); zero weights are checked against removal for the variogram and covariance estimators']
     ctx.notes.append('not covered: grid variograms, Poisson / covariogram estimators with zero weights, block / Bayesian / image kriging, kriging with collocated variables, '
                      'simulations other than turning bands, statistics on grids (dbStatisticsPerCell...), Optim covariance paths beyond evalCovMatrix*Optim; '
-                     'the global mean used by the Poisson variogram estimator (Vario::_getStatistics, first loop) still counts samples without coordinates (not exercised)')
+                     'the zero-weight relation is not checked for the Poisson and covariogram estimators (false by construction)')
 
 def run_checked(ctx):
     run(ctx)
